@@ -40,14 +40,17 @@ def plan(tier, seed):
     q = tier == "quick"
     specs = [{"kind": "inproc", "i": i, "count": 24 if q else 500} for i in range(12 if q else 30)]
     specs += [{"kind": "real", "i": i, "count": 5 if q else 40} for i in range(8 if q else 16)]
+    # volume for the clauses that need many solver runs rather than many drawings: printed minimum = cost of every written
+    # solution, `all` contains `any` - larger inputs, the four super-reconciliation algorithms and thl, no drawing
+    specs += [{"kind": "pairs", "i": i, "count": 70 if q else 600} for i in range(12 if q else 30)]
     return specs
 
 
 # ---------------------------------------------------------------- generators
-def random_doc_input(rng, algo, max_obj=5, max_sp=4):
+def random_doc_input(rng, algo, max_obj=5, max_sp=4, min_obj=1, max_fam=3):
     """A random input file in the documented format."""
     ns = rng.randint(1, max_sp)
-    no = rng.randint(1, max_obj)
+    no = rng.randint(min_obj, max_obj)
     style = rng.choice(["unnamed", "named", "partial", "lookalike"])
     sp_names = rng.sample(["X", "Y", "Zed", "alpha", "B2", "hs", "Mm", "C"], ns)
     if ns >= 2 and rng.random() < 0.15:
@@ -103,11 +106,11 @@ def random_doc_input(rng, algo, max_obj=5, max_sp=4):
     case = {"kind": "cli", "algo": algo, "style": style, "data": data, "leafmap": leafmap, "costs": gen.random_cost(rng), "given_map": give_map}
     if SC.kind_of(algo) != "plain" or rng.random() < 0.2:
         ordered = SC.kind_of(algo) == "ordered"
-        syn = gen.random_syntenies(rng, leaves, 3, ordered=ordered or SC.kind_of(algo) == "plain", consistent_p=1.0)
+        syn = gen.random_syntenies(rng, leaves, max_fam, ordered=ordered or SC.kind_of(algo) == "plain", consistent_p=1.0)
         if rng.random() < 0.6:
             # realistic gene-family names: digit-leading and letter-leading ones mixed, embedded numbers, underscores
-            pool = rng.sample(["cas1", "cas2", "cas10", "16S", "23S", "7b", "b10", "b9", "g_1", "Z", "rpoB", "5"], 3)
-            ren = {f"f{i}": pool[i] for i in range(3)}
+            pool = rng.sample(["cas1", "cas2", "cas10", "16S", "23S", "7b", "b10", "b9", "g_1", "Z", "rpoB", "5"], max_fam)
+            ren = {f"f{i}": pool[i] for i in range(max_fam)}
             syn = {g: [ren[f] for f in fs] for g, fs in syn.items()}
             case["family_names"] = "realistic"
         data["leaf_syntenies"] = syn
@@ -289,7 +292,7 @@ def draw_inproc(obj_text, orientation, tmp, form=0):
     return {"status": status, "tikz": open(outp).read() if os.path.exists(outp) else "", "stderr": stderr}
 
 
-def check_case(ctx, case, mode="inproc"):
+def check_case(ctx, case, mode="inproc", with_draw=True):
     algo = case["algo"]
     kind = SC.kind_of(algo)
     data = case["data"]
@@ -339,6 +342,8 @@ def check_case(ctx, case, mode="inproc"):
                     ctx.viol(f"C12.{mon}", sub, f"{algo}/{pol}: {msg}")
                 if fails:
                     break
+                if not with_draw:
+                    continue
                 orient = "vertical" if (len(ln) + len(pol)) % 2 else "horizontal"
                 form = (len(ln) // 2) % 3
                 d = draw_inproc(ln, orient, tmp, form)
@@ -387,6 +392,17 @@ def canaries(ctx):
 
 def run(ctx, spec):
     rng = ctx.rng(spec["kind"])
+    if spec["kind"] == "pairs":
+        algos = ["superdtl", "base_uspfs", "ext_spfs", "superdtl", "base_spfs", "thl", "superdtl"]
+        for k in range(spec["count"]):
+            algo = algos[(k + spec["i"]) % len(algos)]
+            uno = "uspfs" in algo or algo == "superdtl"
+            case = random_doc_input(rng, algo, 7 if uno else 6, 4, min_obj=4 if uno else 3, max_fam=4 if uno else 3)
+            check_case(ctx, case, "inproc", with_draw=False)
+            ctx.count("mon.pairs_without_drawing")
+            if ctx.too_many():
+                return
+        return
     mode = "real" if spec["kind"] == "real" else "inproc"
     for k in range(spec["count"]):
         algo = ALGOS[(k + spec["i"]) % 7]
